@@ -42,7 +42,16 @@ StmtTable ==
    FCC |-> [fam |-> "m68",   w |-> 1,  ty |-> "str",  fmt |-> "none",   order |-> "big",    pads |-> FALSE],
    TIBYTE |-> [fam |-> "ti", w |-> 1,  ty |-> "int",  fmt |-> "none",   order |-> "little", pads |-> FALSE],
    TIWORD |-> [fam |-> "ti", w |-> 2,  ty |-> "int",  fmt |-> "none",   order |-> "little", pads |-> FALSE],
-   TILONG |-> [fam |-> "ti", w |-> 4,  ty |-> "int",  fmt |-> "none",   order |-> "little", pads |-> FALSE]]
+   TILONG |-> [fam |-> "ti", w |-> 4,  ty |-> "int",  fmt |-> "none",   order |-> "little", pads |-> FALSE],
+   \* packed layouts: elements smaller than the addressable unit ("bytes are packed in pairs into 16 bit words ...
+   \* LSB first ... The analogous is true for DN ... two or four nibbles are packed into a byte or 16 bit word")
+   \*   ebits: element size in bits, unit: bytes per addressable unit
+   PDB |-> [fam |-> "packed", w |-> 1, ebits |-> 8, unit |-> 2, ty |-> "int", fmt |-> "none", order |-> "little", pads |-> FALSE],  \* DB, AVR code segment
+   PDN |-> [fam |-> "packed", w |-> 1, ebits |-> 4, unit |-> 2, ty |-> "int", fmt |-> "none", order |-> "little", pads |-> FALSE],  \* DN, AVR code segment
+   DN  |-> [fam |-> "packed", w |-> 1, ebits |-> 4, unit |-> 1, ty |-> "int", fmt |-> "none", order |-> "little", pads |-> FALSE],  \* DN, byte-addressed target
+   \* DATA of the AVR in the word-addressed code segment: strings two characters per word (LSB first), integers one
+   \* word each, or - PACKING ON - one byte each in the same byte stream
+   AVRDATA |-> [fam |-> "avrdata", w |-> 2, ebits |-> 8, unit |-> 2, ty |-> "int", fmt |-> "none", order |-> "little", pads |-> FALSE]]
 
 (* ---- character maps ------------------------------------------------------------------------------------------ *)
 (* The CHARSET table is a function value 0..255 -> 0..255, part of the state of the assembly.  It starts as the   *)
@@ -189,8 +198,75 @@ ArgR(st, a, md, big) ==
      ELSE IF one.k = "res" THEN [k |-> "res", n |-> one.n * rep]
      ELSE one
 
+(* ---- packed statements -------------------------------------------------------------------------------------------*)
+\* elements of an argument list in order: a number 0 .. 2^ebits - 1, ResE (reserved, `?`), ErrE (error), UnsE (undecided)
+ResE == 0 - 1
+ErrE == 0 - 2
+UnsE == 0 - 3
+InRangeBits(v, bits) ==      \* -2^(bits-1) .. 2^bits - 1
+  IF IsNeg(v) THEN ShrA(v, bits - 1) = MinusOne ELSE ShrL(v, bits) = Zero
+RECURSIVE PElems(_, _, _)
+RECURSIVE PElemsOf(_, _, _)
+PElemsOf(st, a, md) ==
+  CASE a.k = "int" -> IF InRangeBits(a.v, st.ebits) THEN <<BytesLE(a.v)[1] % Pow2(st.ebits)>> ELSE <<ErrE>>
+    [] a.k = "flt" -> <<ErrE>>
+    [] a.k = "str" -> IF st.ebits # 8 \/ a.cs = <<>> THEN <<UnsE>>
+                      ELSE IF a.sq /\ Len(a.cs) = 1 THEN <<MapChar(md.cs, a.cs[1])>>
+                      ELSE MapStr(md.cs, a.cs)
+    [] a.k = "res" -> <<ResE>>
+    [] a.k = "dup" -> RepeatSeq(PElems(st, a.args, md), a.n)
+    [] OTHER -> <<UnsE>>
+PElems(st, args, md) == IF args = <<>> THEN <<>> ELSE PElemsOf(st, Head(args), md) \o PElems(st, Tail(args), md)
+
+\* E elements per unit, the first one in the least significant position; a partly filled last unit is padded
+RECURSIVE UnitValue(_, _, _)
+UnitValue(es, bits, i) == IF es = <<>> THEN 0 ELSE Head(es) * Pow2(bits * i) + UnitValue(Tail(es), bits, i + 1)
+RECURSIVE PackUnits(_, _)
+PackUnits(es, st) ==
+  LET E == (8 * st.unit) \div st.ebits IN
+  IF es = <<>> THEN <<>>
+  ELSE LET n == IF Len(es) < E THEN Len(es) ELSE E
+           v == UnitValue(SubSeq(es, 1, n), st.ebits, 0)
+       IN (IF st.unit = 1 THEN <<v>> ELSE <<v % 256, v \div 256>>) \o PackUnits(SubSeq(es, n + 1, Len(es)), st)
+UnitsFor(n, st) == LET E == (8 * st.unit) \div st.ebits IN (n + E - 1) \div E
+
+LayoutPacked(st, args, md) ==
+  LET es == PElems(st, args, md)
+      kinds == {es[i] : i \in 1..Len(es)}
+  IN IF ErrE \in kinds THEN [k |-> "error"]
+     ELSE IF UnsE \in kinds \/ es = <<>> THEN [k |-> "unspec"]
+     ELSE IF ResE \in kinds THEN (IF kinds = {ResE} THEN [k |-> "reserve", pad |-> 0, n |-> UnitsFor(Len(es), st) * st.unit]
+                                  ELSE [k |-> "error"])                    \* constants and placeholders cannot be mixed
+     ELSE [k |-> "data", pad |-> 0, b |-> PackUnits(es, st)]
+
+\* AVR DATA: a byte stream (string characters, and integers under PACKING ON) filled into words LSB first; an integer
+\* that takes a word of its own (PACKING OFF) first completes a half-filled word with a zero byte
+RECURSIVE AvrStream(_, _, _, _)
+AvrStream(args, md, pending, out) ==      \* pending: <<>> or <<byte>>
+  IF args = <<>> THEN (IF pending = <<>> THEN out ELSE out \o pending \o <<0>>)
+  ELSE LET a == Head(args) IN
+       CASE a.k = "int" /\ md.packing ->
+              IF ~InRangeBits(a.v, 8) THEN <<ErrE>>
+              ELSE LET bs == pending \o <<BytesLE(a.v)[1]>> IN
+                   IF Len(bs) = 2 THEN AvrStream(Tail(args), md, <<>>, out \o bs) ELSE AvrStream(Tail(args), md, bs, out)
+         [] a.k = "int" ->
+              IF ~InRangeBits(a.v, 16) THEN <<ErrE>>
+              ELSE AvrStream(Tail(args), md, <<>>, out \o (IF pending = <<>> THEN <<>> ELSE pending \o <<0>>) \o SubSeq(BytesLE(a.v), 1, 2))
+         [] a.k = "str" /\ a.cs # <<>> /\ ~(a.sq /\ Len(a.cs) <= 2) ->
+              LET cs == MapStr(md.cs, a.cs)
+                  all == pending \o cs
+                  even == 2 * (Len(all) \div 2)
+              IN AvrStream(Tail(args), md, SubSeq(all, even + 1, Len(all)), out \o SubSeq(all, 1, even))
+         [] a.k = "flt" -> <<ErrE>>
+         [] OTHER -> <<UnsE>>
+LayoutAvrData(args, md) ==
+  LET r == AvrStream(args, md, <<>>, <<>>) IN
+  IF r # <<>> /\ r[Len(r)] = ErrE THEN [k |-> "error"]
+  ELSE IF r # <<>> /\ r[Len(r)] = UnsE THEN [k |-> "unspec"]
+  ELSE [k |-> "data", pad |-> 0, b |-> r]
+
 (* ---- the statement ---------------------------------------------------------------------------------------------*)
-Layout(sname, args, md) ==
+LayoutPlain(sname, args, md) ==
   LET st == StmtTable[sname]
       big == IF st.order = "mode" THEN md.big ELSE st.order = "big"
       body == ConcatR([i \in 1..Len(args) |-> ArgR(st, args[i], md, big)])
@@ -200,6 +276,11 @@ Layout(sname, args, md) ==
      ELSE IF body.k = "uns" THEN [k |-> "unspec"]
      ELSE IF body.k = "b" THEN (IF Len(body.b) > 1024 THEN [k |-> "unspec"] ELSE [k |-> "data", pad |-> pad, b |-> body.b])
      ELSE [k |-> "reserve", pad |-> pad, n |-> body.n]
+Layout(sname, args, md) ==
+  CASE Len(args) = 0 -> [k |-> "error"]
+    [] StmtTable[sname].fam = "packed" -> LayoutPacked(StmtTable[sname], args, md)
+    [] StmtTable[sname].fam = "avrdata" -> LayoutAvrData(args, md)
+    [] OTHER -> LayoutPlain(sname, args, md)
 
 \* the same statement twice with CHARSET statements cs2 between the two: the second copy sees the changed table
 LayoutTwice(sname, args, md, cs2) ==
@@ -213,6 +294,12 @@ LayoutTwice(sname, args, md, cs2) ==
 RECURSIVE FlatArgs(_)
 FlatArgs(args) == IF args = <<>> THEN <<>>
                   ELSE (IF Head(args).k = "dup" THEN FlatArgs(Head(args).args) ELSE <<Head(args)>>) \o FlatArgs(Tail(args))
+RECURSIVE AvrDropsByte(_, _)
+AvrDropsByte(as, odd) ==      \* odd: a string byte is pending
+  IF as = <<>> THEN FALSE
+  ELSE LET a == Head(as) IN
+       IF a.k = "str" /\ ~(a.sq /\ Len(a.cs) <= 2) THEN AvrDropsByte(Tail(as), odd # (Len(a.cs) % 2 = 1))
+       ELSE IF odd THEN TRUE ELSE AvrDropsByte(Tail(as), FALSE)
 IsZeroArg(a) == (a.k = "flt" /\ a.v.m = 0) \/ (a.k = "int" /\ IsZero(a.v))
 CharwiseStr(st, a) == a.k = "str" /\ ~(a.sq /\ Len(a.cs) <= st.w /\ Len(a.cs) <= 4)
 Devs(sname, args, md) ==
@@ -231,6 +318,8 @@ Devs(sname, args, md) ==
      \* DC.C on a target whose code is kept in bytes picks the high byte from an uninitialised word
      \* (motpseudo.c EnterIEEE2: Hi(pField[1]) instead of Hi(pField[0]))
      \cup (IF sname = "DCC" /\ md.lg = 1 THEN {"half_bytewise_target"} ELSE {})
+     \* AVR DATA: a word-sized integer after an odd number of string bytes discards the pending byte (codeavr.c PlaceValue)
+     \cup (IF sname = "AVRDATA" /\ ~md.packing /\ AvrDropsByte(args, FALSE) THEN {"avr_data_pending_byte"} ELSE {})
      \* LONG of the TMS320C2x truncates silently (tipseudo.c wr_code_long has no range check)
      \cup (IF sname = "TILONG" /\ \E i \in 1..Len(fa) : fa[i].k = "int" /\ ~InRange(fa[i].v, 4) THEN {"ti_long_range"} ELSE {})
 =============================================================================
